@@ -234,12 +234,19 @@ func H_History() {
 		st = state.WrapCore(inmem.NewState(tres.NS))
 	}
 	steps := 3
-	if verif.Tier() == "thorough" {
-		steps = 4
-	}
 	ids := []string{verif.Atom("idA"), verif.Atom("idB")}
 	verif.Assume(ids[0] != ids[1])
 	m := &spec{}
+	if verif.Tier() == "thorough" && verif.Choose("seeded", 2) == 1 {
+		// thorough: also every 4-call history whose first call is a successful Create (a first call
+		// that fails on the empty state changes nothing, so those are the 3-call histories again)
+		id := verif.Atom("id0")
+		verif.Assume(verif.Or(id == ids[0], id == ids[1]))
+		owner := verif.Atom("owner0")
+		verif.Assert(st.Create(ctx, tres.NewA(tres.NS, id, "c"), state.WithCreateOwner(owner)) == nil && m.create(id, owner, "c") == okClass, "Create on the empty state succeeds")
+		checkState(ctx, st, m, ids)
+		verif.Cover("four calls")
+	}
 	n := 1 + verif.Choose("nsteps", steps)
 	for k := 0; k < n; k++ {
 		id := verif.Atom("id")
